@@ -23,6 +23,15 @@ class Undecided(Exception):
     pass
 
 
+class Raises(Exception):
+    """the evaluated code itself raises on these (valid) concrete arguments"""
+
+    def __init__(self, what, node=None):
+        Exception.__init__(self, what)
+        self.what = what
+        self.node = node
+
+
 class _Return(Exception):
     def __init__(self, value):
         self.value = value
@@ -63,10 +72,18 @@ class Shape:
 
 
 class Obj:
-    """`self` with a concrete attribute table"""
+    """`self` with a concrete attribute table; `methods`: name -> FunctionDef of the class (looked
+    up for self.<name>(...) calls that are not in the attribute table)"""
 
-    def __init__(self, attrs):
+    def __init__(self, attrs, methods=None):
         self.attrs = attrs
+        self.methods = methods or {}
+
+
+class BoundMethod:
+    def __init__(self, obj, node):
+        self.obj = obj
+        self.node = node
 
 
 class SymFn:
@@ -111,6 +128,14 @@ def mk_sum(*terms):
             flat.extend(t[1])
         else:
             flat.append(t)
+    nums = [t for t in flat if isinstance(t, (int, float)) and not isinstance(t, bool)]
+    flat = [t for t in flat if not (isinstance(t, (int, float)) and not isinstance(t, bool))]
+    if nums:
+        total = sum(nums)
+        if not flat:
+            return total
+        if total != 0:
+            flat.append(total)
     if not flat:
         return ("zeros",)
     if len(flat) == 1:
@@ -144,7 +169,9 @@ class PEval:
         self.shapes = shapes or {}  # term -> concrete sizes of the non-batch axes
 
     # -- running a method -------------------------------------------------------------
-    def call_method(self, fnode, args):
+    def call_method(self, fnode, args, kwargs=None):
+        if kwargs:
+            return self._run_function(fnode, list(args), kwargs, self.self_obj)
         env = Env()
         params = [a.arg for a in fnode.args.args]
         defaults = [None] * (len(params) - len(fnode.args.defaults)) + list(fnode.args.defaults)
@@ -161,6 +188,28 @@ class PEval:
         except _Return as r:
             return r.value
         return None
+
+    def _run_function(self, fnode, args, kwargs, self_val):
+        env = Env()
+        params = [a.arg for a in fnode.args.args]
+        defaults = [None] * (len(params) - len(fnode.args.defaults)) + list(fnode.args.defaults)
+        vals = ([self_val] if self_val is not None else []) + list(args)
+        for i, pn in enumerate(params):
+            if i < len(vals):
+                env.set(pn, vals[i])
+            elif pn in kwargs:
+                env.set(pn, kwargs[pn])
+            elif defaults[i] is not None:
+                env.set(pn, self.ev(defaults[i], env))
+            else:
+                raise Undecided("missing argument %s" % pn)
+        is_gen = any(isinstance(n, (ast.Yield, ast.YieldFrom)) for n in ast.walk(fnode))
+        out = [] if is_gen else None
+        try:
+            self.block(fnode.body, env, out)
+        except _Return as r:
+            return out if is_gen else r.value
+        return out if is_gen else None
 
     def call_closure(self, c, args):
         env = Env(c.env)
@@ -232,7 +281,7 @@ class PEval:
             if st.body and all(isinstance(s, ast.Raise) for s in st.body) and not st.orelse:
                 t = self.try_truth(st.test, env)
                 if t is True:
-                    raise Undecided("a rejecting guard is taken for the stage count under evaluation")
+                    raise Raises("rejects the configuration: `if %s: raise %s`" % (norm_text(st.test)[:60], norm_text(st.body[0].exc)[:40] if st.body[0].exc is not None else ""), st)
                 return
             t = self.try_truth(st.test, env)
             if t is None:
@@ -279,9 +328,18 @@ class PEval:
             base = self.ev(t.value, env)
             idx = self.ev(t.slice, env)
             if isinstance(base, list) and isinstance(idx, int):
-                base[idx] = v
+                try:
+                    base[idx] = v
+                except IndexError:
+                    raise Raises("IndexError: store at index %r into a list of length %d (`%s`)" % (idx, len(base), norm_text(t)[:50]), t)
             else:
                 raise Undecided("store into %s" % norm_text(t)[:40])
+        elif isinstance(t, ast.Attribute):
+            base = self.ev(t.value, env)
+            if isinstance(base, Obj):
+                base.attrs[t.attr] = v
+            else:
+                raise Undecided("attribute store on %r" % (base,))
         else:
             raise Undecided("assignment target %s" % type(t).__name__)
 
@@ -312,10 +370,20 @@ class PEval:
                 return a - b
             if isinstance(op, ast.Mult):
                 return a * b
+            if isinstance(op, (ast.FloorDiv, ast.Mod, ast.Div)) and b == 0:
+                raise Raises("ZeroDivisionError")
             if isinstance(op, ast.FloorDiv):
                 return a // b
             if isinstance(op, ast.Mod):
                 return a % b
+            if isinstance(op, ast.Div):
+                return a / b
+            if isinstance(op, ast.Pow) and abs(b) <= 8:
+                return a ** b
+            if isinstance(op, ast.RShift) and isinstance(a, int) and isinstance(b, int):
+                return a >> b
+            if isinstance(op, ast.LShift) and isinstance(a, int) and isinstance(b, int) and b <= 16:
+                return a << b
         if isinstance(op, ast.Add):
             if isinstance(a, list) and isinstance(b, list):
                 return a + b
@@ -371,6 +439,8 @@ class PEval:
         if isinstance(e, ast.Compare) and len(e.ops) == 1:
             a, b = self.ev(e.left, env), self.ev(e.comparators[0], env)
             op = e.ops[0]
+            if isinstance(op, (ast.Eq, ast.NotEq)) and isinstance(a, (tuple, list)) and isinstance(b, (tuple, list)) and all(isinstance(x, int) for x in list(a) + list(b)):
+                return (list(a) == list(b)) == isinstance(op, ast.Eq)
             if isinstance(op, (ast.Is, ast.IsNot)):
                 same = a is b or (a is None and b is None)
                 if a is None or b is None:
@@ -428,6 +498,8 @@ class PEval:
         if isinstance(base, Obj):
             if name in base.attrs:
                 return base.attrs[name]
+            if name in base.methods:
+                return BoundMethod(base, base.methods[name])
             raise Undecided("attribute self.%s" % name)
         if isinstance(base, Stage):
             if name in ("inverse", "forward"):
@@ -449,7 +521,10 @@ class PEval:
         if isinstance(base, (list, tuple)) and not (base and base[0] in ("shape-of", "module", "method", "modfn", "listmethod")):
             idx = self.ev(sl, env)
             if isinstance(idx, (int, slice)):
-                r = base[idx]
+                try:
+                    r = base[idx]
+                except IndexError:
+                    raise Raises("IndexError: index %r into a sequence of length %d (`%s`)" % (idx, len(base), norm_text(node)[:50]), node)
                 return list(r) if isinstance(idx, slice) and isinstance(base, list) else r
             raise Undecided("symbolic index into a list")
         if isinstance(base, tuple) and base and base[0] == "shape-of":
@@ -499,6 +574,17 @@ class PEval:
             if fn_text == "tuple":
                 return tuple(self.iterate(args[0])) if args else ()
         kw = {k.arg: self.ev(k.value, env) for k in e.keywords if k.arg is not None}
+        if fn_text in ("round", "abs", "min", "max", "math.ceil", "np.ceil", "math.floor", "np.floor", "float") and e.args:
+            vals = [self.ev(a, env) for a in e.args]
+            if all(isinstance(v, (int, float)) and not isinstance(v, bool) for v in vals):
+                import math
+
+                name = fn_text.split(".")[-1]
+                if name in ("min", "max"):
+                    return min(vals) if name == "min" else max(vals)
+                if len(vals) == 1:
+                    return {"round": round, "abs": abs, "ceil": math.ceil, "floor": math.floor, "float": float}[name](vals[0])
+            raise Undecided("%s of a symbolic value" % fn_text)
         if fn_text == "int" and len(e.args) == 1:
             a = self.ev(e.args[0], env)
             if isinstance(a, (int, float)):
@@ -528,7 +614,7 @@ class PEval:
             out, acc = [], 0
             for it in items:
                 acc = mk_sum(acc, it.term if isinstance(it, Sym) else it)
-                out.append(Sym(acc))
+                out.append(acc if isinstance(acc, (int, float)) else Sym(acc))
             return out
         if fn_text in ("np.insert", "numpy.insert"):
             lst, pos, val = [self.ev(a, env) for a in e.args[:3]]
@@ -557,9 +643,13 @@ class PEval:
             d = d.term if isinstance(d, Sym) else d
             if not all(isinstance(x, Sym) for x in parts):
                 raise Undecided("cat of non-tensors")
-            terms = tuple(x.term for x in parts)
-            if terms and all(isinstance(t, tuple) and t[0] == "flat" for t in terms) and d in (-1, 1):
-                d = "last"
+            terms = tuple(x.term for x in parts if x.term != ("empty",))
+            if len(terms) == 1:
+                return Sym(terms[0])
+            if not terms:
+                return Sym(("empty",))
+            if terms and all(isinstance(t, tuple) and t[0] in ("flat", "slice") for t in terms) and d in (-1, 1):
+                d = "last"  # two-dimensional operands: the only non-batch axis
             return Sym(("cat", terms, d))
         if fn_text == "torch.flatten":
             x = self.ev(e.args[0], env)
@@ -567,6 +657,28 @@ class PEval:
             if isinstance(x, Sym) and s == 1:
                 return Sym(("flat", x.term))
             raise Undecided("flatten")
+        if fn_text in ("super().__init__",):
+            return None
+        if fn_text in ("nn.ModuleList", "torch.nn.ModuleList"):
+            return list(self.iterate(self.ev(e.args[0], env))) if e.args else []
+        if fn_text in ("check.is_positive_int", "typechecks.is_positive_int", "is_positive_int", "check.is_nonnegative_int", "typechecks.is_nonnegative_int", "check.is_int", "check.is_bool") and len(e.args) == 1:
+            # the predicates of nflows.utils.typechecks (their bodies are C20 UT-PRED's obligation)
+            a = self.ev(e.args[0], env)
+            if isinstance(a, bool):
+                return fn_text.endswith("is_bool")
+            if isinstance(a, int):
+                return {"is_positive_int": a > 0, "is_nonnegative_int": a >= 0, "is_int": True, "is_bool": False}[fn_text.split(".")[-1]]
+            if isinstance(a, (Sym, Stage, Shape)) or a is None or isinstance(a, (float, str, list, tuple)):
+                return False
+            raise Undecided("type predicate on %r" % (a,))
+        if isinstance(e.func, ast.Attribute) and isinstance(e.func.value, ast.Name) and e.func.value.id not in ("torch", "np", "F", "nn", "math", "torchutils") and isinstance(self.self_obj, Obj) and e.func.attr in self.self_obj.methods and e.func.value.id[:1].isupper():
+            # ClassName._helper(...): a static helper of the class
+            try:
+                env.get(e.func.value.id)
+            except Undecided:
+                node = self.self_obj.methods[e.func.attr]
+                sargs = [self.ev(a, env) for a in e.args]
+                return self._run_function(node, sargs, {k.arg: self.ev(k.value, env) for k in e.keywords if k.arg}, None)
         f = self.ev(e.func, env)
         args = []
         for a in e.args:
@@ -577,6 +689,9 @@ class PEval:
                 args.append(self.ev(a, env))
         if isinstance(f, Closure):
             return self.call_closure(f, args)
+        if isinstance(f, BoundMethod):
+            is_static = any((isinstance(d, ast.Name) and d.id == "staticmethod") for d in f.node.decorator_list)
+            return self._run_function(f.node, list(args), kw, None if is_static else f.obj)
         if isinstance(f, SymFn):
             targs = tuple(a.term if isinstance(a, Sym) else a for a in args) + tuple((k, v.term if isinstance(v, Sym) else v) for k, v in sorted(kw.items()))
             t = ("call", f.name) + targs
@@ -605,11 +720,19 @@ class PEval:
             return None
         if isinstance(f, tuple) and f and f[0] == "method":
             _, x, name = f
+            if name in ("new_empty", "new_zeros", "new_ones") and any(a == 0 for a in args):
+                return Sym(("empty",))
+            if name in ("reshape", "view", "flatten") and x.term == ("empty",):
+                return x
             if name in ("reshape", "view"):
                 if len(args) == 2 and isinstance(args[0], Sym) and args[0].term[0] == "dim0" and args[1] == -1:
-                    return Sym(("flat", x.term))
+                    return Sym(x.term if isinstance(x.term, tuple) and x.term[0] == "flat" else ("flat", x.term))
                 if len(args) == 2 and args[0] == -1 and isinstance(args[1], tuple) and args[1][0] == "star" and isinstance(args[1][1], Shape):
                     return Sym(("view", x.term, args[1][1].name))
+                if len(args) == 2 and args[0] == -1 and isinstance(args[1], tuple) and args[1][0] == "star" and isinstance(args[1][1], (tuple, list)) and all(isinstance(d, int) for d in args[1][1]):
+                    return Sym(("view", x.term, tuple(args[1][1])))
+                if args and args[0] == -1 and all(isinstance(d, int) for d in args[1:]) and len(args) > 1:
+                    return Sym(("view", x.term, tuple(args[1:])))
                 raise Undecided("%s%r" % (name, tuple(args)))
             if name == "flatten" and args == [1]:
                 return Sym(("flat", x.term))
